@@ -12,6 +12,7 @@ use chrono::Duration;
 use grin_chain::{Chain, Options};
 use grin_core::core::hash::{Hash, Hashed};
 use grin_core::core::transaction::{self, FeeFields};
+use grin_core::core::Committed;
 use grin_core::core::{
 	Block, KernelFeatures, Output, OutputFeatures, Transaction, TxKernel, Weighting,
 };
@@ -578,7 +579,7 @@ impl<'a> Harness<'a> {
 	/// Joint validity of a set of transactions on top of the current head:
 	/// reference-ledger clauses first, then the real code (aggregate, validate,
 	/// Chain::validate_tx). Returns the first failing clause.
-	fn joint_check(&self, st: &RefState, txs: &[Transaction]) -> Option<(String, String)> {
+	fn joint_check(&self, st: &RefState, txs: &[Transaction], full: bool) -> Option<(String, String)> {
 		if txs.is_empty() {
 			return None;
 		}
@@ -628,8 +629,25 @@ impl<'a> Harness<'a> {
 			Ok(a) => a,
 			Err(e) => return Some(("aggregate".into(), eclass(&e))),
 		};
-		if let Err(e) = agg.validate(Weighting::NoLimit) {
-			return Some(("validate".into(), eclass(&e)));
+		if full {
+			self.run.count("joint_checks_full_validate", 1);
+			if let Err(e) = agg.validate(Weighting::NoLimit) {
+				return Some(("validate".into(), eclass(&e)));
+			}
+		} else {
+			// everything `validate` does except re-verifying range proofs and kernel
+			// signatures: those are per-element facts of immutable entries, each of which
+			// is fully validated standalone when first seen (I4 scan)
+			self.run.count("joint_checks_light_validate", 1);
+			if let Err(e) = agg.body.verify_features() {
+				return Some(("validate".into(), eclass(&e)));
+			}
+			if let Err(e) = agg.body.validate_read(Weighting::NoLimit) {
+				return Some(("validate".into(), eclass(&e)));
+			}
+			if let Err(e) = agg.verify_kernel_sums(agg.overage(), agg.offset.clone()) {
+				return Some(("validate".into(), eclass(&e)));
+			}
 		}
 		if let Err(e) = self.chain.validate_tx(&agg) {
 			return Some(("chain_validate_tx".into(), eclass(&e)));
@@ -642,8 +660,29 @@ impl<'a> Harness<'a> {
 		let v = self.view();
 		self.run.count("invariant_evaluations", 1);
 
+		// I4 state scan first: every entry that appears in either pool satisfies the
+		// admission rules, incl. full standalone validation (once per distinct entry).
+		for (tx, which) in v
+			.txpool
+			.iter()
+			.map(|t| (t, "txpool"))
+			.chain(v.stempool.iter().map(|t| (t, "stempool")))
+		{
+			if self.known_entries.insert(tx.hash()) {
+				self.run.count("i4_entries_scanned", 1);
+				if let Some(clause) = self.admission_clause(tx) {
+					let sig = format!("I4;scan;clause={};pool={}", clause, which);
+					self.violation(
+						&sig,
+						&format!("{} holds an entry violating the admission rule `{}`", which, clause),
+						json!({"entry": tx_summary(tx)}),
+					);
+				}
+			}
+		}
 		// I1 / I2
-		match self.joint_check(&v.st, &v.txpool) {
+		let full = self.prng.chance(1, 4);
+		match self.joint_check(&v.st, &v.txpool, full) {
 			Some((clause, err)) => {
 				if !self.broken_i1 {
 					self.broken_i1 = true;
@@ -669,7 +708,7 @@ impl<'a> Harness<'a> {
 				self.run.count("i3_evaluations_nonempty_stempool", 1);
 				let mut all = v.txpool.clone();
 				all.extend(v.stempool.iter().cloned());
-				match self.joint_check(&v.st, &all) {
+				match self.joint_check(&v.st, &all, false) {
 					Some((clause, err)) => {
 						if !self.broken_i3 {
 							self.broken_i3 = true;
@@ -688,28 +727,8 @@ impl<'a> Harness<'a> {
 				}
 			}
 		}
-		// I4 state scan: every entry that appears in either pool satisfies the
-		// admission rules (checked once per distinct entry).
-		for (tx, which) in v
-			.txpool
-			.iter()
-			.map(|t| (t, "txpool"))
-			.chain(v.stempool.iter().map(|t| (t, "stempool")))
-		{
-			if self.known_entries.insert(tx.hash()) {
-				self.run.count("i4_entries_scanned", 1);
-				if let Some(clause) = self.admission_clause(tx) {
-					let sig = format!("I4;scan;clause={};pool={}", clause, which);
-					self.violation(
-						&sig,
-						&format!("{} holds an entry violating the admission rule `{}`", which, clause),
-						json!({"entry": tx_summary(tx)}),
-					);
-				}
-			}
-		}
 		// I5 dry run
-		if !self.stop && self.prng.chance(1, 4) {
+		if !self.stop && self.prng.chance(1, 8) {
 			self.mine(false);
 		}
 	}
@@ -1648,7 +1667,9 @@ impl<'a> Harness<'a> {
 		if bw > MAX_BLOCK_W {
 			return fail(self, "weight", format!("{}", bw), &txs);
 		}
-		self.run.set_max("max_mined_block_weight", bw);
+		if real && bw > MAX_BLOCK_W - OUTPUT_W {
+			self.run.count("mined_blocks_within_one_output_of_weight_limit", 1);
+		}
 		let st = self.ledger.state_at(&head.hash());
 		let ref_verdict = st.check_block(&b);
 		if !real {
@@ -2156,7 +2177,9 @@ impl<'a> Harness<'a> {
 		}
 		self.run.count("sequences", 1);
 		self.run.count(&format!("sequences.profile{}", self.profile), 1);
-		self.run.set_max("max_ops_in_a_sequence", self.n_ops as u64);
+		if self.n_ops >= 100 {
+			self.run.count("sequences_with_100_or_more_ops", 1);
+		}
 	}
 }
 
@@ -2190,17 +2213,8 @@ fn run_sequence(run: &Run, shared: &Shared, seq: u64, root: &str) {
 	let _ = std::fs::remove_dir_all(&dir);
 }
 
-fn main() {
-	let run = Run::from_env("C14", "exploration");
-	init_globals(true);
-	let san = run.args.iter().any(|a| a == "--san");
-	let mut only_seq: Option<u64> = None;
-	let mut it = run.args.iter();
-	while let Some(a) = it.next() {
-		if a == "--only-seq" {
-			only_seq = it.next().and_then(|s| s.parse().ok());
-		}
-	}
+fn parse_only_seq(run: &Run) -> Option<u64> {
+	let mut only_seq: Option<u64> = run.arg_value("--only-seq").and_then(|s| s.parse().ok());
 	if let Some(p) = &run.replay {
 		if let Ok(s) = std::fs::read_to_string(p) {
 			if let Ok(v) = serde_json::from_str::<Value>(&s) {
@@ -2210,23 +2224,46 @@ fn main() {
 			}
 		}
 	}
-	let (budget_s, max_seqs): (u64, u64) = if san {
-		(60, 6)
-	} else {
-		run.tier.pick((72, 600), (640, 6000))
-	};
-	let scratch = Scratch::new("c14");
+	only_seq
+}
+
+/// Run the sequences `first, first+step, ...` until the budget is used up.
+fn run_shard(run: &Run, first: u64, step: u64, budget_s: u64, max_seqs: u64, small: bool) {
+	init_thread(true);
+	let scratch = Scratch::new(&format!("c14-{}", first));
 	let root = scratch.path.to_string_lossy().to_string();
 	let shared = Shared {
 		deadline: Instant::now() + StdDuration::from_secs(budget_s),
 		next_seq: AtomicU64::new(0),
 		max_seqs,
-		small: san,
+		small,
 	};
-	let n_threads = std::thread::available_parallelism()
-		.map(|n| n.get())
-		.unwrap_or(4)
-		.min(16);
+	let mut seq = first;
+	let mut n = 0;
+	while Instant::now() < shared.deadline && n < shared.max_seqs {
+		run_sequence(run, &shared, seq, &root);
+		seq += step;
+		n += 1;
+		shared.next_seq.store(n, Ordering::SeqCst);
+	}
+	drop(scratch);
+}
+
+fn main() {
+	let run = Run::from_env("C14", "exploration");
+	init_globals(true);
+	let san = run.args.iter().any(|a| a == "--san");
+	let only_seq = parse_only_seq(&run);
+	// per-worker budget (wall seconds, sequences)
+	let (mut budget_s, max_seqs): (u64, u64) = run.tier.pick((82, 60), (640, 600));
+	if let Some(b) = run.arg_value("--budget").and_then(|s| s.parse().ok()) {
+		budget_s = b; // development override
+	}
+
+	if let Some((i, n)) = run.worker_shard() {
+		run_shard(&run, i as u64, n as u64, budget_s, max_seqs, false);
+		run.finish_worker();
+	}
 
 	run.set_rule(
 		"Each sequence: fresh AutomatedTesting chain (SKIP_POW blocks from the reference ledger's block factory: 5-7 coinbase \
@@ -2238,47 +2275,36 @@ fn main() {
 		 low-fee (min-1, min/2, shifted) / overweight (11-12 outputs) / invalid (empty, unbalanced, bad signature x2, swapped proofs) / immature (coinbase, lock height; and exact boundaries) \
 		 as stem or fluff, stem re-submission, dandelion-monitor fluff and embargo expiry; mine a block from prepare_mineable_transactions(); foreign blocks with subsets of pool \
 		 txs and fresh conflicting spends; reorgs (depth 1-3, equal/longer fork, and shorter-but-heavier fork) re-including / omitting replaced txs; fill bursts to force eviction. \
-		 After EVERY operation I1-I3 + I4 scan are re-evaluated from scratch (reference ledger replay + aggregate/validate/Chain::validate_tx), I5 by dry-run after 1/4 of the operations \
-		 and by a really mined + processed block in `mine` operations. An evaluation = one executed operation; its signature is \
+		 After EVERY operation I1-I3 + I4 scan are re-evaluated from scratch (reference ledger replay + aggregate/validate/Chain::validate_tx), I5 by dry-run after 1/8 of the operations \
+		 and by a really mined + processed block in `mine` operations. Sequences are sharded over 16 worker processes (sequence s is a function of (seed, s) only). \
+		 An evaluation = one executed operation; its signature is \
 		 (previous op kind > op kind, txpool size class {0,1-3,4-7,8+,over capacity}, stem flag, outcome class incl. error variant / eviction / block status); distinct signatures are counted.",
 	);
 	run.assume("Blocks are delivered with Options::SKIP_POW (difficulty chosen by the harness); proof of work is out of scope for C14.");
 	run.assume("p2p::Peers is real but has no connected peers: broadcasts reach nobody, stem relay always fails over to fluff in a stem epoch.");
 	run.assume("Core primitives (Transaction::validate, aggregate, secp256k1) are trusted when evaluating the invariants; UTXO membership is judged by the independent reference ledger and, additionally, by Chain::validate_tx.");
+	run.assume("Range proofs / kernel signatures of pool entries are verified once per distinct entry (standalone validate when first seen) and again in 1/4 of the joint checks; the other joint checks verify sums, cut-through, ordering and UTXO membership only.");
 
-	std::thread::scope(|s| {
-		for _ in 0..n_threads {
-			s.spawn(|| {
-				init_thread(true);
-				loop {
-					if Instant::now() > shared.deadline {
-						break;
-					}
-					let seq = match only_seq {
-						Some(q) => {
-							if shared.next_seq.fetch_add(1, Ordering::SeqCst) > 0 {
-								break;
-							}
-							q
-						}
-						None => {
-							let q = shared.next_seq.fetch_add(1, Ordering::SeqCst);
-							if q >= shared.max_seqs {
-								break;
-							}
-							q
-						}
-					};
-					run_sequence(&run, &shared, seq, &root);
-				}
-			});
-		}
-	});
+	let scale: u64;
+	if let Some(q) = only_seq {
+		run_shard(&run, q, 1, 3600, 1, san);
+		scale = 0;
+	} else if san {
+		run_shard(&run, 0, 1, 120, 3, true);
+		scale = 0;
+	} else {
+		let n_workers = std::thread::available_parallelism()
+			.map(|n| n.get())
+			.unwrap_or(4)
+			.clamp(2, 16);
+		run.spawn_workers(n_workers, &[], budget_s + 120);
+		scale = run.tier.pick(1, 6);
+	}
 
 	let c = |n: &str| run.counter(n);
-	let scale: u64 = if san || only_seq.is_some() { 0 } else { run.tier.pick(1, 4) };
 	run.require("sequences", c("sequences"), 1.max(20 * scale));
 	run.require("invariant_evaluations", c("invariant_evaluations"), 10.max(1500 * scale));
+	run.require("joint_checks_full_validate", c("joint_checks_full_validate"), 200 * scale);
 	run.require("i3_evaluations_nonempty_stempool", c("i3_evaluations_nonempty_stempool"), 100 * scale);
 	for k in KINDS {
 		let min = match *k {
@@ -2289,15 +2315,14 @@ fn main() {
 	}
 	run.require("admitted", c("admitted"), 300 * scale);
 	run.require("admitted_to_stempool", c("admitted_to_stempool"), 20 * scale);
-	run.require("mined_blocks_accepted", c("mined_blocks_accepted"), 1.max(40 * scale) * (scale.min(1)));
+	run.require("mined_blocks_accepted", c("mined_blocks_accepted"), 40 * scale);
 	run.require("mined_blocks_accepted_nonempty", c("mined_blocks_accepted_nonempty"), 25 * scale);
 	run.require("foreign_blocks_accepted", c("foreign_blocks_accepted"), 40 * scale);
-	run.require("reorgs", c("reorgs"), 1.max(10 * scale) * (scale.min(1)));
-	run.require("evictions", c("evictions"), 1.max(10 * scale) * (scale.min(1)));
+	run.require("reorgs", c("reorgs"), 10 * scale);
+	run.require("evictions", c("evictions"), 10 * scale);
 	run.require("refused.low_fee", c("refused.low_fee"), 20 * scale);
 	run.require("refused.overweight", c("refused.overweight"), 5 * scale);
 	run.require("refused.invalid", c("refused.invalid"), 20 * scale);
-	run.require("i5_dry_runs", c("i5_dry_runs"), 200 * scale);
-	drop(scratch);
+	run.require("i5_dry_runs", c("i5_dry_runs"), 100 * scale);
 	run.finish();
 }
